@@ -19,3 +19,5 @@ def run(chk, replay=None):
     thorough = chk.tier == "thorough"
     fqlib.model_checks(chk, ("safety", "liveness", "mutants", "reach"))
     fqlib.run_fq(chk, ("C06/",), nsim=3000 if thorough else 400, nstarve=400 if thorough else 60, nrand=2000 if thorough else 300)
+    import dlvlib
+    dlvlib.flood(chk, ("C06/",), nper=12 if thorough else 2, clients=6 if thorough else 4, msgs=300 if thorough else 60)
